@@ -2183,6 +2183,13 @@ func (te *TemplateEngine) processDocumentLevelLoops(doc *Document, data *Templat
 						}
 					}
 
+					// 循环范围内的节属性（页面设置、页眉页脚引用）不属于循环模板，必须保留
+					for _, templateElement := range templateElements {
+						if sectPr, ok := templateElement.(*SectionProperties); ok {
+							newElements = append(newElements, sectPr)
+						}
+					}
+
 					// 跳过循环模板元素
 					i = loopEndIndex + 1
 					continue
